@@ -19,7 +19,7 @@ package core
 // Arguments are evaluated once, in order, into fresh variables; the body runs in its own block, so that its locals
 // cannot capture or leak; `return` becomes an assignment to the result variables and a break out of a one-trip loop.
 // A call is left alone (and the rules then see the helper as before) when any precondition fails: the callee has
-// defer/recover/labels/closures that return, is recursive, generic or variadic-with-spread in an unsupported position, a
+// defer/recover/goto/closures that return, is recursive, generic or variadic-with-spread in an unsupported position, a
 // package-level name used by the callee is shadowed at the call site, or the call stands where hoisting it could change the
 // evaluation order. The result is type-checked by the loader; if that fails, the un-normalised program is analysed.
 
@@ -55,6 +55,15 @@ func (p *Program) IsNewFunc(obj *types.Func) bool {
 	}
 	if _, renamed := ri.canon[fn]; renamed {
 		return false
+	}
+	// a reference function of the same package and name that is gone ( (*T).clamp(v)  became  clamp(v, t.min, t.max) ): this is that
+	// function under another parameter list, not a helper that was split off — the rules look for it by name
+	for k := range ri.ref {
+		if strings.HasPrefix(k, rel+"|") && strings.HasSuffix(k, "|"+name) && !strings.Contains(k, "|#") {
+			if _, still := ri.cur[k]; !still && ri.byKey[k] == nil {
+				return false
+			}
+		}
 	}
 	return true
 }
